@@ -50,6 +50,17 @@ Definition shape_valid (t : tag) (a : attrs) : bool :=
   | _ => true
   end.
 
+(* ------------------------------------------------------------------ has_valid_transform *)
+(* tiny_skia_path::Transform::is_valid (third party, validated by convert-skel): finite and both
+   get_scale() components above f32::EPSILON; sqrt(a) <= eps  <=>  a <= eps^2 *)
+Definition F32_EPS_SQ : Q := (1 # 8388608) * (1 # 8388608).
+Definition usvg_ts_valid (t : ts) : bool :=
+  negb (Qleb (t_sx t * t_sx t + t_kx t * t_kx t) F32_EPS_SQ) &&
+  negb (Qleb (t_ky t * t_ky t + t_sy t * t_sy t) F32_EPS_SQ).
+Definition ts_det (t : ts) : Q := t_sx t * t_sy t - t_kx t * t_ky t.
+(* known class: a non-invertible transform that has_valid_transform accepts *)
+Definition singular_kept (t : ts) : bool := Qeqb (ts_det t) 0 && usvg_ts_valid t.
+
 (* ------------------------------------------------------------------ generated ids *)
 Fixpoint str_in (s : string) (l : list string) : bool :=
   match l with [] => false | x :: r => if String.eqb s x then true else str_in s r end.
@@ -296,6 +307,15 @@ Definition ignorable (n : node) : bool :=
       || a_req_ext a || negb (a_features_known a) || negb (a_syslang_ok a)   (* failing conditional attribute *)
       || (is_shape_tag t && negb (shape_valid t a) && negb (has_filter_attr a))
                                                                     (* zero-size / invalid shape without a filter *)
+  end.
+(* SVG 1.1 sect. 9: the shapes that are "not rendered" because of their geometry (spec side, no tables) *)
+Definition zero_size (t : tag) (a : attrs) : bool :=
+  match t with
+  | T_Rect => Qleb (a_width a) 0 || Qleb (a_height a) 0
+  | T_Circle => Qleb (a_r a) 0
+  | T_Ellipse => Qleb (a_rx a) 0 || Qleb (a_ry a) 0
+  | T_Polyline | T_Polygon | T_Path => N.ltb (a_npoints a) 2
+  | _ => false
   end.
 Fixpoint all_ignorable (l : nodes) : bool :=
   match l with NNil => true | NCons x r => ignorable x && all_ignorable r end.
